@@ -44,7 +44,7 @@ Tokens == {
   T("float64", "frac", <<"1.5">>, TRUE, "1.5"), T("float64", "over", <<"1e400">>, FALSE, ""), T("float64", "exp", <<"1e3">>, TRUE, "1000"), T("float64", "word", <<"abc">>, FALSE, ""),
   T("[]string", "two", <<"x", "y">>, TRUE, "[\"x\",\"y\"]"), T("[]string", "one", <<"x">>, TRUE, "[\"x\"]"),
   T("[]int", "two", <<"1", "2">>, TRUE, "[1,2]"), T("[]int", "bad", <<"1", "x">>, FALSE, ""),
-  T("p1.Color", "red", <<"red">>, TRUE, "\"red\""),
+  T("p1.Color", "red", <<"red">>, TRUE, "\"red\""), T("p1.Color", "violet", <<"violet">>, TRUE, "\"violet\""),   \* violet: not a member of Color
   T("p1.Item", "full", <<"{\"name\":\"n\",\"count\":3}">>, TRUE, "{\"name\":\"n\",\"count\":3}"),
   T("p1.Item", "min", <<"{\"name\":\"n\"}">>, TRUE, "{\"name\":\"n\",\"count\":null}"),
   T("p1.Item", "noname", <<"{\"count\":3}">>, FALSE, ""), T("p1.Item", "badjson", <<"{\"name\":">>, FALSE, ""),
@@ -78,6 +78,24 @@ Stopped(s, stage, o) == [s EXCEPT !.pc = "done", !.outcome = "stopped", !.status
 
 Decision(script, n) == IF n <= Len(script) THEN script[n] ELSE TRUE
 
+\* Declared validators (go-playground tags) that the handler machine understands, as data: which tokens of which type pass.
+\* A rule the table does not know leaves the verdict open ("?"): nothing is then expected of that request.
+NonMembers == {<<"p1.Color", "violet">>}
+RulePasses(rule, ty, tokid) ==
+    CASE rule \in {"required", "omitempty", ""} -> "yes"
+      [] rule = "oneof=abc a+b" /\ ty = "string" -> IF tokid \in {"abc", "plus"} THEN "yes" ELSE "no"
+      [] rule = "gte=1" /\ ty \in {"int", "int64"} -> IF tokid \in {"zero", "neg"} THEN "no" ELSE "yes"
+      [] rule = "max=3" /\ ty = "string" -> IF tokid \in {"abc", "space", "plus", "empty"} THEN "yes" ELSE IF tokid = "amp" THEN "no" ELSE "?"
+      [] OTHER -> "?"
+SplitRules(v) == LET RECURSIVE go(_, _) go(i, cur) == IF i > Len(v) THEN <<cur>>
+                                                      ELSE IF SubSeq(v, i, i) = "," THEN <<cur>> \o go(i + 1, "") ELSE go(i + 1, cur \o SubSeq(v, i, i))
+                 IN IF v = "" THEN <<>> ELSE go(1, "")
+ValidatorVerdict(p, tokid) == LET rs == SplitRules(p.validate)
+                                  vs == {RulePasses(rs[i], BaseType(p.type), tokid) : i \in DOMAIN rs}
+                              IN  IF "no" \in vs THEN "no" ELSE IF "?" \in vs THEN "?" ELSE "yes"
+\* validateTopLevelOnlyEnum: an enum parameter outside the body accepts the declared values only
+EnumStrictOf(hd) == "enumStrict" \in DOMAIN hd /\ hd.enumStrict
+EnumRejected(hd, p, tokid) == EnumStrictOf(hd) /\ p.in \in {"query", "header", "path", "form"} /\ <<BaseType(p.type), tokid>> \in NonMembers
 RespCheckOf(hd) == IF "respCheck" \in DOMAIN hd THEN hd.respCheck ELSE "valid"
 Reject422(s, o) == IF MwStops("onInput", o) THEN [Stopped(s, "onInput", o) EXCEPT !.outcome = "rejected-stopped"]
                    ELSE [s EXCEPT !.pc = "done", !.outcome = "rejected", !.status = 422, !.mw = s.mw \o MwRun("onInput", o)]
@@ -100,7 +118,9 @@ Step(h, req, script, opts, s) ==
                      ELSE IF tok = ABSENT
                           THEN IF p.required THEN Reject422(s, opts)
                                ELSE [s EXCEPT !.k = @ + 1, !.args = Append(@, "null")]
-                     ELSE IF ~TokOf(p.type, tok).fits THEN Reject422(s, opts)
+                     ELSE IF ~TokOf(p.type, tok).fits \/ EnumRejected(h, p, tok) THEN Reject422(s, opts)
+                     ELSE IF ValidatorVerdict(p, tok) = "no" THEN Reject422(s, opts)
+                     ELSE IF ValidatorVerdict(p, tok) = "?" THEN [s EXCEPT !.pc = "done", !.outcome = "open"]       \* beyond the table: no expectation
                      ELSE [s EXCEPT !.k = @ + 1, !.args = Append(@, TokOf(p.type, tok).canon)]
       [] s.pc = "invoke" ->
             \* before-middlewares, then the controller; an operation error is answered first (500, or the status the controller set) after
@@ -159,6 +179,9 @@ C03_InOrder == \A i \in DOMAIN st.auth : st.auth[i].scheme = h.alts[i].scheme /\
                                           /\ (i < Len(st.auth) => ~st.auth[i].ok)
 C05_Reject  == st.outcome = "rejected" => st.status = 422
 C05_Args    == st.outcome = "invoked" => Len(st.args) = Len(h.params)
+\* the controller never runs with a value a declared validator (as far as the table knows it) refuses, nor - under enumStrict - with a non-member
+C05_Valid   == st.outcome = "invoked" => \A i \in DOMAIN h.params : req.toks[i] # ABSENT /\ h.params[i].in # "ctx" =>
+                                              (ValidatorVerdict(h.params[i], req.toks[i]) = "yes" /\ ~EnumRejected(h, h.params[i], req.toks[i]))
 C14_Done    == <>(st.pc = "done")
 \* no user middleware runs unless the gate approved (or the route has no security), and none after a refusal
 C03_MwAfterGate == st.mw # <<>> => (h.alts = <<>> \/ Approved(st.auth))
